@@ -245,6 +245,7 @@ func (l *lexer) run() {
 				l.col += w
 				l.ignore()
 				l.inVerbatim = false
+				continue // re-examine this position: another construct may start here
 			}
 		} else if strings.HasPrefix(l.input[l.pos:], "{% verbatim %}") { // tag
 			if l.pos > l.start {
@@ -255,6 +256,7 @@ func (l *lexer) run() {
 			l.pos += w
 			l.col += w
 			l.ignore()
+			continue // the end marker may follow immediately (empty verbatim block)
 		}
 
 		if !l.inVerbatim {
